@@ -15,6 +15,19 @@ def df_of(hexmsg):
     return min(int(hexmsg[:2], 16) >> 3, 24)
 
 
+ASSIGNED = (0, 4, 5, 11, 16, 17, 18, 20, 21, 24)
+
+
+def optional(hexmsg):
+    """True for frames the property does not oblige a framer to deliver (nor forbids it to): downlink formats that are
+    not assigned civil Mode S formats (incl. the military DF19) and frames whose length contradicts their format.  If
+    such a frame IS delivered it must still be delivered intact, in order and once."""
+    d = df_of(hexmsg)
+    if d not in ASSIGNED:
+        return True
+    return not admitted(hexmsg)
+
+
 def admitted(hexmsg):
     d = df_of(hexmsg)
     if d in SHORT_ONLY and len(hexmsg) != 14:
@@ -68,9 +81,9 @@ def beast_reference(stream):
             msg = "".join("%02X" % x for x in body[7:21])
         else:
             continue
-        if not admitted(msg):
-            continue
-        out.append({"msg": msg, "sig": body[6] if len(body) > 6 else None, "end": end, "lenient": lenient})
+        if len(body) < (14 if ftype == 0x32 else 21):
+            continue                    # not even a whole payload between two frame starts: nothing to deliver
+        out.append({"msg": msg, "sig": body[6] if len(body) > 6 else None, "end": end, "lenient": lenient, "optional": optional(msg)})
     return out
 
 
@@ -90,7 +103,8 @@ def raw_reference(stream):
             cur = []
         elif b == 59:
             if cur is not None:
-                out.append({"msg": "".join(map(chr, cur)), "end": i + 1, "lenient": i + 1})
+                m_ = "".join(map(chr, cur))
+                out.append({"msg": m_, "end": i + 1, "lenient": i + 1, "optional": len(m_) not in (14, 28) or optional(m_.upper())})
             cur = None
         elif cur is not None and b in HEXCH:
             cur.append(b)
@@ -113,7 +127,7 @@ def skysense_reference(stream):
             t = stream[i + 15:i + 21]
             sec = ((t[0] & 0x7F) << 10) | (t[1] << 2) | (t[2] >> 6)
             nano = ((t[2] & 0x3F) << 24) | (t[3] << 16) | (t[4] << 8) | t[5]
-            out.append({"msg": msg, "ts": sec + nano * 1.0e-9, "end": i + 24, "lenient": i + 25})
+            out.append({"msg": msg, "ts": sec + nano * 1.0e-9, "end": i + 24, "lenient": i + 25, "optional": optional(msg)})
             i += 24
         else:
             i += 1
